@@ -512,7 +512,7 @@ func execFault(c *faultCase, fault bool, k int) *faultRun {
 }
 
 func runFaultCase(id string, c *faultCase) {
-	defer recoverCase(id, c)
+	defer watchCase(id, c)()
 	cs := &Case{ID: id, Kind: fmt.Sprintf("%s/%s/%s", c.Op, c.Fault, c.Timeout), HypOK: true, Replay: c, Nontrivial: true}
 	dry := execFault(c, false, 0)
 	if dry.crashed != "" || dry.errs[0] != nil || dry.errs[1] != nil {
